@@ -24,6 +24,37 @@ def _is_commit(call):
     return isinstance(call.func, ast.Attribute) and call.func.attr == 'commit'
 
 
+def committing_helpers(ctx):
+    """{fq: FunctionInfo} of the petl functions (other than the load implementations) that can end a transaction: they
+    call .commit() themselves or call such a function.  A call of one of them is a commit for R17.1."""
+    cached = getattr(ctx, '_c17_committers', None)
+    if cached is not None:
+        return cached
+    fns = [f for f in ctx.project.all_functions() if f.module.name.startswith('petl.io')
+           and not f.module.name.startswith('petl._controls')]
+    out = {}
+    for f in fns:
+        if f.module.name == 'petl.io.db' and f.qualname.split('.')[0] in IMPLS + DELEGATES + ['_todb', 'todb', 'appenddb']:
+            continue
+        if any(_is_commit(c) for c in _calls(f.node)):
+            out[f.fq] = f
+    changed = True
+    while changed:
+        changed = False
+        for f in fns:
+            if f.fq in out:
+                continue
+            if f.module.name == 'petl.io.db' and f.qualname.split('.')[0] in IMPLS + DELEGATES + ['_todb', 'todb', 'appenddb']:
+                continue
+            for c in _calls(f.node):
+                if any(r.kind == 'func' and getattr(r.target, 'fq', None) in out for r in ctx.res.resolve_call(f, c)):
+                    out[f.fq] = f
+                    changed = True
+                    break
+    ctx._c17_committers = out
+    return out
+
+
 def _is_insert_many(call):
     return isinstance(call.func, ast.Attribute) and call.func.attr == 'executemany'
 
@@ -37,8 +68,9 @@ class LoadFacts(BaseDomain):
     source (executemany(insert, it) / the insert loop) completed normally;
     'T' = the truncate statement was executed."""
 
-    def __init__(self, fn):
+    def __init__(self, fn, ctx=None):
         self.fn = fn
+        self.ctx = ctx
         self.commits = []        # (call node, stmt, frozenset facts, in_abrupt)
         self.in_abrupt_finally = 0
         self.insert_stmts = []
@@ -62,9 +94,21 @@ class LoadFacts(BaseDomain):
     def may_raise_for(self, s, st):
         return {ANY}
 
+    def _commits(self, c):
+        if _is_commit(c):
+            return True
+        if self.ctx is not None and not (isinstance(c.func, ast.Attribute) and not isinstance(c.func.value, ast.Name)):
+            helpers = committing_helpers(self.ctx)
+            try:
+                refs = self.ctx.res.resolve_call(self.fn, c)
+            except Exception:
+                refs = []
+            return any(r.kind == 'func' and getattr(r.target, 'fq', None) in helpers for r in refs)
+        return False
+
     def _note_commits(self, node, st):
         for c in _calls(node):
-            if _is_commit(c):
+            if self._commits(c):
                 self.commits.append((c, node, st, self.in_abrupt_finally > 0))
 
     def exec_simple(self, s, st):
@@ -145,7 +189,7 @@ def run(ctx):
         real = not fn.module.name.startswith('petl._controls')
         if real:
             n += 1
-        _check_impl(rep, fn)
+        _check_impl(rep, fn, ctx)
     ctx.floor('todb_implementations', n, 5)
     for name in DELEGATES:
         fn = mod.functions.get(name)
@@ -159,14 +203,14 @@ def run(ctx):
             _forward(rep, fn, calls[0], ('commit', 'truncate'), 'R17.4')
         else:
             rep.violated('R17.4', fn, 'def ' + fn.name, 'expected one delegation to _todb_sqlalchemy_connection', fn.node)
-    r173(ctx, rep, mod)
-    r174(ctx, rep, mod)
-    r175(ctx, rep, mod)
-    r176(ctx, rep, mod)
+    ctx.attempt(r173, ctx, rep, mod)
+    ctx.attempt(r174, ctx, rep, mod)
+    ctx.attempt(r175, ctx, rep, mod)
+    ctx.attempt(r176, ctx, rep, mod)
 
 
-def _check_impl(rep, fn):
-    dom = LoadFacts(fn)
+def _check_impl(rep, fn, ctx=None):
+    dom = LoadFacts(fn, ctx)
     Interp(fn.node, dom).run()
     pm = parent_map(fn.node)
     if not dom.insert_stmts:
